@@ -13,7 +13,7 @@ import (
 )
 
 func c05Weights() hWeights {
-	return hWeights{deliver: 34, ack: 28, save: 10, savefail: 7, savebegin: 11, saveend: 10,
+	return hWeights{deliver: 34, ack: 28, save: 10, savefail: 7, savebegin: 11, saveend: 10, savequeue: 6,
 		absorbed: 25, maxVb: scale(5, 12), minOps: 1, maxOps: scale(60, 200)}
 }
 
@@ -154,7 +154,7 @@ func TestC05_Periodic(t *testing.T) {
 // repaired defects (known_findings.json, status fixed): their replays must hold now; if one fails
 // again it is reported as a violation like any other.
 func TestC05_Fixed(t *testing.T) {
-	for _, f := range []string{"findings/C05_nondoc_only_progress_never_saved.json", "findings/C05_progress_during_inflight_save_unmarked.json"} {
+	for _, f := range []string{"findings/C05_nondoc_only_progress_never_saved.json", "findings/C05_progress_during_inflight_save_unmarked.json", "findings/C05_queued_save_stale_dirty_set.json"} {
 		if d := runReplayFile(verifRoot() + "/" + f); d != "" {
 			var rf replayFile
 			b, _ := os.ReadFile(verifRoot() + "/" + f)
